@@ -57,6 +57,11 @@ func (e editor) enter(from *Selection, to *Selection, new bool, strategy editStr
 		m := ml.nextMeta()
 		//fmt.Printf("Begin %s\n", meta.SchemaPath(from.Meta()))
 		for m != nil {
+			if ml.err != nil {
+				// choosing the case of a choice further on has already failed, the list of
+				// definitions looks one ahead
+				return ml.err
+			}
 			var err error
 			if meta.IsLeaf(m) {
 				err = e.leaf(from, to, m.(meta.Leafable), new, strategy)
